@@ -13,8 +13,10 @@
 //   rsinterp <s1> <s2> <t> -> `<x> <y> <yaw>`                              interpolate(s1, s2, t, out)
 //   rsend <s1> <s2>      -> `<x> <y> <yaw>`                                interpolate(from, reedsShepp(s1,s2), 1.0, out)  (protected; derived class)
 //   both <s1> <s2>       -> `rs=<d> rsrev=<d> dub=<d> dubrev=<d>`          RS distance both ways, Dubins distance (same rho) both ways
-// stdout is flushed after every line: libompl is built with its `assert`s enabled, an assertion
-// failure aborts the process and the check reads off which operation did it.  No hooks in /repo.
+// stdout is flushed after every line so that, if the process dies (sanitizer report, an `assert` of the
+// inline header code), the check reads off which operation did it.  The cached libompl is built with
+// -DNDEBUG, so the solvers' own asserts are compiled out: the check's oracle evaluates those identities.
+// No hooks in /repo.
 #include "common/proto.h"
 #include <limits>
 #include <ompl/base/spaces/DubinsStateSpace.h>
